@@ -215,6 +215,22 @@ func (r *scopeRegistry) Subscope(parent *scope, prefix string, tags map[string]s
 	tags = parent.copyAndSanitizeMap(tags)
 	sanitizedKey = scopeRegistryKey(prefix, parent.tags, tags)
 
+	// The scope may also be known under its sanitized key only (it was obtained
+	// through another spelling of the same tags). A closed one must be reported
+	// and replaced here as well rather than handed out again.
+	if !ok {
+		if ss, found := r.lockedLookup(subscopeBucket, sanitizedKey); found &&
+			ss.closed.Load() && !ss.testScope {
+			s, ok = ss, true
+			switch {
+			case parent.reporter != nil:
+				s.report(parent.reporter)
+			case parent.cachedReporter != nil:
+				s.cachedReport()
+			}
+		}
+	}
+
 	// If a scope was found above but we didn't return, we need to remove the
 	// scope from both keys.
 	if ok {
